@@ -50,7 +50,7 @@ def stLine (s : DbState) : String := s!"st {s.cmds.length}"
 
 def step (st : St) (l : String) : St × String :=
   let pending : List Cmd := st.ds.db.toList
-  let clear (s : DbState) : St := { ds := { st.ds with db := #[] }, s := s }
+  let clear (s : DbState) : St := { ds := { st.ds with db := #[], cache := none }, s := s }
   let ri := st.ds.ri
   match words l with
   | ["snapshot"] => (clear st.s, snapshot pending)
